@@ -108,7 +108,9 @@ func verifyRawCerts(rawCerts [][]byte, certHashes []multihash.DecodedMultihash) 
 	if len(rawCerts) < 1 {
 		return errors.New("no cert")
 	}
-	leaf := rawCerts[len(rawCerts)-1]
+	// The first certificate is the one the server proves possession of in the
+	// TLS handshake; the remaining entries are only supporting material.
+	leaf := rawCerts[0]
 	// The W3C WebTransport specification currently only allows SHA-256 certificates for serverCertificateHashes.
 	hash := sha256.Sum256(leaf)
 	var verified bool
